@@ -175,9 +175,17 @@ def lemma(key, name, *, props=(), vars=None, hyps=(), goal='True', text='', theo
     LEMMAS.append(lm)
 
 
-def spec_def(name, params, text):
-    """Pure spec function defined by a Python expression over its parameters."""
+OPAQUE_DEFS: set = set()
+
+
+def spec_def(name, params, text, opaque=False):
+    """Pure spec function defined by a Python expression over its parameters.
+    opaque=True (boolean, heap-independent predicates over values only): calls become applications of an
+    uninterpreted predicate with the defining equivalence as a quantified axiom triggered by the application --
+    statements about unchanged values then carry over by congruence instead of by re-proving nested quantifiers."""
     SPEC_DEFS[name] = (list(params), ast.parse(text.strip(), mode='eval').body, text)
+    if opaque:
+        OPAQUE_DEFS.add(name)
 
 
 def module_global(module, name, kind):
